@@ -179,7 +179,7 @@ def run(tier, seed, replay=None):
     reqs = ['\t'.join(c[:-1]) for c in cases]
     resp = cm.run_hook(reqs, exe_hook)
 
-    stats = dict(unsupported=0, crash=0, some=0, none=0, nonexact_equiv=0, known_f5c=0, pos_expected=0)
+    stats = dict(unsupported=0, crash=0, some=0, none=0, nonexact_equiv=0, known_f5c=0, pos_expected=0, complete_hyps_met=0)
     model_reqs, idx = [], []
     for i, r in enumerate(resp):
         if r.startswith('(Unsupported'):
@@ -213,7 +213,9 @@ def run(tier, seed, replay=None):
             nontrivial.add(reqs[i])
         prop_fail = None
         if is_some:
-            exact, equiv, bound, comm = m['sound'].split('\t')
+            exact, equiv, bound, comm, hyp = m['sound'].split('\t')
+            if hyp == 'true':
+                stats['complete_hyps_met'] += 1
             if equiv != 'true':
                 prop_fail = 'reported substitution does not reproduce the instance: apply(sigma, a) is not equivalent to b'
             elif bound != 'true':
